@@ -1350,6 +1350,131 @@ fn model_enabled(evs: &[Ev], scn: &Scenario, cap: usize) -> (bool, Vec<Value>, b
   (any, blocked, any_async, any_sync)
 }
 
+/// Inputs of the progress monitor (stuck oracle), so several engines can share it.
+pub struct WatchIn<'a> {
+  pub done: &'a dyn Fn() -> bool,
+  /// thread slots (as recorded in `Ev::thread`) that have not finished
+  pub unfinished: &'a dyn Fn() -> Vec<usize>,
+  pub history: &'a dyn Fn() -> Vec<Ev>,
+  pub threads: &'a dyn Fn() -> Vec<std::thread::Thread>,
+  /// (some blocked op enabled?, blocked ops as JSON, any async blocked, any sync blocked)
+  pub model: &'a dyn Fn(&[Ev]) -> (bool, Vec<Value>, bool, bool),
+}
+
+/// Watches a running scenario until every thread is done or it is stuck. Wall-clock only
+/// decides *when to look*; the verdict needs: no progress through `confirmations` quiet
+/// windows, every unfinished thread inside a blocking call, a healthy scheduler canary, and
+/// then either a legal nudge (spurious unpark / spontaneous re-poll) releases a thread or the
+/// history model shows a blocked operation enabled. Returns (report, threads left behind).
+pub fn watch(w: &WatchIn<'_>, cfg: &StuckCfg, canary: &Canary) -> (Option<StuckReport>, bool) {
+  let mut last_progress = stuck::progress_value();
+  let mut last_change = Instant::now();
+  let mut confirmations = 0u32;
+  let mut stuck_report: Option<StuckReport> = None;
+  let mut leaked = false;
+  canary.reset();
+  let mut spins = 0u32;
+  loop {
+    if (w.done)() {
+      break;
+    }
+    spins += 1;
+    if spins < 200 {
+      std::thread::sleep(Duration::from_micros(200));
+    } else {
+      std::thread::sleep(Duration::from_millis(2));
+    }
+    let p = stuck::progress_value();
+    if p != last_progress {
+      last_progress = p;
+      last_change = Instant::now();
+      confirmations = 0;
+      canary.reset();
+      continue;
+    }
+    if last_change.elapsed() < cfg.quiet * (confirmations + 1) {
+      continue;
+    }
+    // Quiet period elapsed: look at the history.
+    let evs = (w.history)();
+    let unfinished: Vec<usize> = (w.unfinished)();
+    let all_blocked = unfinished.iter().all(|&t| evs.iter().any(|e| e.thread as usize == t && e.is_open()));
+    let only_blocking_forms = evs.iter().filter(|e| e.is_open()).all(|e| e.form.is_blocking());
+    if !all_blocked || !only_blocking_forms {
+      // somebody is between operations or inside a non-blocking / timed call: just slow
+      if last_change.elapsed() > Duration::from_secs(60) {
+        stuck_report = Some(StuckReport {
+          blocked: evs.iter().filter(|e| e.is_open()).map(|e| e.to_json()).collect(),
+          model_enabled: false,
+          nudge_released: false,
+          forced_ready: 0,
+          canary_max_gap_us: canary.max_gap_us(),
+          any_async_blocked: false,
+          any_sync_blocked: false,
+          reason: "no progress for 60 s while a thread is outside a blocking call (harness or timed-call livelock)".into(),
+        });
+        leaked = true;
+        break;
+      }
+      continue;
+    }
+    confirmations += 1;
+    if confirmations < cfg.confirmations {
+      continue;
+    }
+    let gap = canary.max_gap_us();
+    let (enabled, blocked, any_async, any_sync) = (w.model)(&evs);
+    let threads = (w.threads)();
+    // Nudge: a spurious unpark of every worker, and a spontaneous re-poll of every pending
+    // future, are both legal events that change nothing in the channel. If they release a
+    // thread, its operation had been possible all along.
+    let before = stuck::progress_value();
+    let forced0 = vh_core::stepper::FORCED_READY.load(Ordering::SeqCst);
+    vh_core::stepper::FORCE_POLL.store(true, Ordering::SeqCst);
+    for _ in 0..3 {
+      for t in &threads {
+        t.unpark();
+      }
+      std::thread::sleep(Duration::from_millis(150));
+    }
+    let released = stuck::progress_value() != before;
+    // give released threads a chance to finish
+    let t_wait = Instant::now();
+    while !(w.done)() && t_wait.elapsed() < Duration::from_millis(1500) {
+      for t in &threads {
+        t.unpark();
+      }
+      std::thread::sleep(Duration::from_millis(20));
+    }
+    vh_core::stepper::FORCE_POLL.store(false, Ordering::SeqCst);
+    let forced = vh_core::stepper::FORCED_READY.load(Ordering::SeqCst) - forced0;
+    let reason = if gap > cfg.canary_limit_us {
+      "scheduler canary unhealthy during the quiet window".to_string()
+    } else if released {
+      "a legal spurious wake / spontaneous re-poll released a thread that had been parked through the whole quiet window".to_string()
+    } else if enabled {
+      "an operation that the recorded history shows to be possible stayed blocked, even after a spurious wake".to_string()
+    } else {
+      "all threads blocked and the history model finds no enabled operation (scenario not closed?)".to_string()
+    };
+    stuck_report = Some(StuckReport {
+      blocked,
+      model_enabled: enabled,
+      nudge_released: released,
+      forced_ready: forced,
+      canary_max_gap_us: gap,
+      any_async_blocked: any_async,
+      any_sync_blocked: any_sync,
+      reason,
+    });
+    if !(w.done)() {
+      leaked = true;
+    }
+    break;
+  }
+  (stuck_report, leaked)
+}
+
 pub fn execute(scn: Scenario, cfg: &StuckCfg, canary: &Canary, ledger_on: bool) -> ExecOutcome {
   let t0 = Instant::now();
   let fl = scn.flavour;
@@ -1470,112 +1595,28 @@ pub fn execute(scn: Scenario, cfg: &StuckCfg, canary: &Canary, ledger_on: bool) 
   start.wait();
 
   // ---- monitor loop
-  let mut last_progress = stuck::progress_value();
-  let mut last_change = Instant::now();
-  let mut confirmations = 0u32;
-  let mut stuck_report: Option<StuckReport> = None;
-  let mut leaked = false;
-  canary.reset();
-  let all_done = |sh: &Shared| sh.state.iter().all(|s| s.load(Ordering::SeqCst) == ST_DONE);
-  let mut spins = 0u32;
-  loop {
-    if all_done(&sh) {
-      break;
-    }
-    spins += 1;
-    if spins < 200 {
-      std::thread::sleep(Duration::from_micros(200));
-    } else {
-      std::thread::sleep(Duration::from_millis(2));
-    }
-    let p = stuck::progress_value();
-    if p != last_progress {
-      last_progress = p;
-      last_change = Instant::now();
-      confirmations = 0;
-      canary.reset();
-      continue;
-    }
-    if last_change.elapsed() < cfg.quiet * (confirmations + 1) {
-      continue;
-    }
-    // Quiet period elapsed: look at the history.
-    let evs = merge(&sh.logs);
-    let unfinished: Vec<usize> = (0..nthreads).filter(|&t| sh.state[t].load(Ordering::SeqCst) != ST_DONE).collect();
-    let all_blocked = unfinished.iter().all(|&t| evs.iter().any(|e| e.thread as usize == t && e.is_open()));
-    let only_blocking_forms = evs.iter().filter(|e| e.is_open()).all(|e| e.form.is_blocking());
-    if !all_blocked || !only_blocking_forms {
-      // somebody is between operations or inside a non-blocking / timed call: just slow
-      if last_change.elapsed() > Duration::from_secs(60) {
-        stuck_report = Some(StuckReport {
-          blocked: evs.iter().filter(|e| e.is_open()).map(|e| e.to_json()).collect(),
-          model_enabled: false,
-          nudge_released: false,
-          forced_ready: 0,
-          canary_max_gap_us: canary.max_gap_us(),
-          any_async_blocked: false,
-          any_sync_blocked: false,
-          reason: "no progress for 60 s while a thread is outside a blocking call (harness or timed-call livelock)".into(),
-        });
-        leaked = true;
-        break;
-      }
-      continue;
-    }
-    confirmations += 1;
-    if confirmations < cfg.confirmations {
-      continue;
-    }
-    let gap = canary.max_gap_us();
-    let cap = sh.cap_reported.lock().unwrap().unwrap_or(scn.cap);
-    let (enabled, blocked, any_async, any_sync) = model_enabled(&evs, &scn, cap);
-    // Nudge: a spurious unpark of every worker, and a spontaneous re-poll of every pending
-    // future, are both legal events that change nothing in the channel. If they release a
-    // thread, its operation had been possible all along.
-    let before = stuck::progress_value();
-    let forced0 = vh_core::stepper::FORCED_READY.load(Ordering::SeqCst);
-    vh_core::stepper::FORCE_POLL.store(true, Ordering::SeqCst);
-    for _ in 0..3 {
-      for t in &threads {
-        t.unpark();
-      }
-      std::thread::sleep(Duration::from_millis(150));
-    }
-    let released = stuck::progress_value() != before;
-    // give released threads a chance to finish
-    let t_wait = Instant::now();
-    while !all_done(&sh) && t_wait.elapsed() < Duration::from_millis(1500) {
-      for t in &threads {
-        t.unpark();
-      }
-      std::thread::sleep(Duration::from_millis(20));
-    }
-    vh_core::stepper::FORCE_POLL.store(false, Ordering::SeqCst);
-    let forced = vh_core::stepper::FORCED_READY.load(Ordering::SeqCst) - forced0;
-    let reason = if gap > cfg.canary_limit_us {
-      "scheduler canary unhealthy during the quiet window".to_string()
-    } else if released {
-      "a legal spurious wake / spontaneous re-poll released a thread that had been parked through the whole quiet window".to_string()
-    } else if enabled {
-      "an operation that the recorded history shows to be possible stayed blocked, even after a spurious wake".to_string()
-    } else {
-      "all threads blocked and the history model finds no enabled operation (scenario not closed?)".to_string()
-    };
-    stuck_report = Some(StuckReport {
-      blocked,
-      model_enabled: enabled,
-      nudge_released: released,
-      forced_ready: forced,
-      canary_max_gap_us: gap,
-      any_async_blocked: any_async,
-      any_sync_blocked: any_sync,
-      reason,
-    });
-    if !all_done(&sh) {
-      leaked = true;
-    }
-    break;
-  }
+  let (stuck_report, leaked) = {
+    let shd = sh.clone();
+    let shu = sh.clone();
+    let shh = sh.clone();
+    let thr = threads.clone();
+    let scn_m = scn.clone();
+    let shc = sh.clone();
+    watch(
+      &WatchIn {
+        done: &move || shd.state.iter().all(|s| s.load(Ordering::SeqCst) == ST_DONE),
+        unfinished: &move || (0..nthreads).filter(|&t| shu.state[t].load(Ordering::SeqCst) != ST_DONE).collect(),
+        history: &move || merge(&shh.logs),
+        threads: &move || thr.clone(),
+        model: &move |evs: &[Ev]| {
+          let cap = shc.cap_reported.lock().unwrap().unwrap_or(scn_m.cap);
+          model_enabled(evs, &scn_m, cap)
+        },
+      },
+      cfg,
+      canary,
+    )
+  };
   gremlin_stop.store(true, Ordering::Relaxed);
   if let Some(g) = gremlin {
     let _ = g.join();
